@@ -251,6 +251,7 @@ CacheAdd(x, m) ==
     ELSE [x EXCEPT !.cache = {c \in @ : ~(c.h = m.h /\ c.kind = kd /\ c.from = m.from)}
                                 \cup {[h |-> m.h, kind |-> kd, from |-> m.from, p |-> m]}]
 
+NilTypes == {"NilChangeView", "NilPrepareRequest", "NilPrepareResponse", "NilCommit", "NilPreCommit", "NilRecoveryRequest", "NilRecoveryMessage"}
 Bind(S, Fn(_)) == UNION {Fn(s) : s \in S}
 RECURSIVE Orders(_)
 Orders(S) == IF S = {} THEN {<<>>} ELSE UNION {{<<e>> \o o : o \in Orders(S \ {e})} : e \in S}
@@ -434,7 +435,7 @@ OnRecoveryMessage(x0, m) ==
 \* dbft.go OnReceive
 OnReceive(x, m) ==
   IF m.from >= x.n THEN {x}
-  ELSE IF m.t \notin {"ChangeView", "PrepareRequest", "PrepareResponse", "Commit", "PreCommit", "RecoveryRequest", "RecoveryMessage"} THEN {x}
+  ELSE IF m.t \in NilTypes THEN {x}      \* msg.Payload() == nil
   ELSE IF m.h < x.h THEN {x}
   ELSE IF m.h > x.h \/ (m.v > x.v /\ m.t \notin {"ChangeView", "RecoveryMessage"}) THEN {CacheAdd(x, m)}
   ELSE LET sn == x.seen[m.from + 1]
@@ -448,6 +449,7 @@ OnReceive(x, m) ==
                  [] m.t = "PreCommit" -> IF ~x0.amev THEN {x0} ELSE OnPreCommit(x0, m)
                  [] m.t = "RecoveryRequest" -> OnRecoveryRequest(x0, m)
                  [] m.t = "RecoveryMessage" -> OnRecoveryMessage(x0, m)
+                 [] OTHER -> {x0}     \* unknown message type: logged, ignored
 
 -----------------------------------------------------------------------------
 \* send.go sendPrepareRequest, context.go Fill
